@@ -2025,6 +2025,16 @@ def _mm_call(it, obj):
     return lambda *a, **k: it.call_module(obj, list(a), k)
 
 
+def _mm_requires_grad_(it, obj):
+    """nn.Module.requires_grad_(flag): sets the flag on every parameter of the module tree (freezing keeps them Parameters)."""
+    def f(requires_grad=True):
+        for _, p in MM.named_members(obj, "_parameters"):
+            if p is not None:
+                p.requires_grad = bool(requires_grad)
+        return obj
+    return f
+
+
 def _mm_add_module(it, obj):
     def f(name, module):
         obj.attrs["_modules"][name] = module
@@ -2043,7 +2053,7 @@ _MODULE_METHODS: Dict[str, Callable] = {
     "named_children": _mm_children(True), "children": _mm_children(False),
     "named_modules": _mm_modules(True), "modules": _mm_modules(False),
     "to": _mm_self, "cpu": _mm_self, "cuda": _mm_self, "train": _mm_self, "eval": _mm_self, "float": _mm_self,
-    "double": _mm_self, "requires_grad_": _mm_self, "zero_grad": _mm_self, "__call__": _mm_call, "add_module": _mm_add_module,
+    "double": _mm_self, "requires_grad_": _mm_requires_grad_, "zero_grad": _mm_self, "__call__": _mm_call, "add_module": _mm_add_module,
     "_get_name": _mm_get_name, "extra_repr": lambda it, obj: (lambda: ""),
 }
 
